@@ -591,11 +591,9 @@ func (d *Decoder) loadLong1() error {
 	if err != nil {
 		return err
 	}
-	length, err := decodeLong(string(b))
-	if err != nil {
-		return err
-	}
-	for i := 0; int64(i) < length.Int64(); i++ {
+	// the length is one unsigned byte (decoding it as a long would make >= 128 negative)
+	length := int(b)
+	for i := 0; i < length; i++ {
 		b2, err := d.r.ReadByte()
 		if err != nil {
 			return err
